@@ -201,6 +201,38 @@ def undoCore (g : GHeap) (n : GNNI) : Except Fail GHeap :=
     | _, _ => .error .panic
   | _, _, _, _ => .error .panic
 
+/-- the heap `Apply` leaves: the two `br` writes, the four `neigh` writes, `Inverse` (if `inv`), the two re-attachments -/
+def applyRes (g : GHeap) (n : GNNI) (x i12 i1 i22 i2 e1 e2 ec : Nat) (inv : Bool) : GHeap :=
+  ⟨setNeigh (setNeigh (setNeigh (setNeigh (setBr (setBr g.nodes n.n1 i12 e2) n.n2 i22 e1) n.n1 i12 x) x i2 n.n1) n.n2 i22 n.n12) n.n12 i1 n.n2,
+   reattach (reattach (if inv then inverse g.edges ec else g.edges) e1 n.n1 n.n2) e2 n.n2 n.n1⟩
+
+/-- the heap `Undo` leaves (`i11` = slot of the swapped neighbour in n1, `i12` = slot of n1_2 in n2) -/
+def undoRes (g : GHeap) (n : GNNI) (x i11 i1 i12 i2 e1 e2 ec : Nat) (inv : Bool) : GHeap :=
+  ⟨setNeigh (setNeigh (setNeigh (setNeigh (setBr (setBr g.nodes n.n1 i11 e2) n.n2 i12 e1) n.n1 i11 n.n12) n.n12 i2 n.n1) n.n2 i12 x) x i1 n.n2,
+   reattach (reattach (if inv then inverse g.edges ec else g.edges) e1 n.n1 n.n2) e2 n.n2 n.n1⟩
+
+/-- the hypotheses of `undoCore_applyCore`, decidable (the driver evaluates it on the code's records) -/
+def siteOK (g : GHeap) (n : GNNI) : Bool :=
+  match g.nodes[n.n1]?, g.nodes[n.n2]?, g.nodes[n.n12]?, g.nodes[if n.cross then n.n21 else n.n22]? with
+  | some N1, some N2, some N12, some X =>
+    match idx N1.neigh n.n2, idx N1.neigh n.n12, idx N12.neigh n.n1, idx N2.neigh (if n.cross then n.n21 else n.n22), idx X.neigh n.n2 with
+    | some i0, some i12, some _, some i22, some _ =>
+      match N1.br[i12]?, N2.br[i22]?, N1.br[i0]? with
+      | some e1, some e2, some ec =>
+        match g.edges[e1]?, g.edges[e2]?, g.edges[ec]? with
+        | some E1, some E2, some _ =>
+          n.n1 != n.n2 && n.n12 != n.n1 && n.n12 != n.n2 && (if n.cross then n.n21 else n.n22) != n.n1 &&
+          (if n.cross then n.n21 else n.n22) != n.n2 && (if n.cross then n.n21 else n.n22) != n.n12 &&
+          (idx N2.neigh n.n12).isNone && (idx N1.neigh (if n.cross then n.n21 else n.n22)).isNone &&
+          (idx N12.neigh n.n2).isNone && (idx X.neigh n.n1).isNone &&
+          e1 != e2 && ec != e1 && ec != e2 &&
+          ((E1.left == n.n1 && E1.right == n.n12) || (E1.left == n.n12 && E1.right == n.n1)) &&
+          ((E2.left == n.n2 && E2.right == (if n.cross then n.n21 else n.n22)) || (E2.left == (if n.cross then n.n21 else n.n22) && E2.right == n.n2))
+        | _, _, _ => false
+      | _, _, _ => false
+    | _, _, _, _, _ => false
+  | _, _, _, _ => false
+
 /-- `n.Apply()`: outcome, heap and object afterwards (`if n.applied { return }` :87, `n.applied = true` :157) -/
 def applyG (g : GHeap) (n : GNNI) : Out × GHeap × GNNI :=
   if n.applied then (.ok, g, n) else
